@@ -91,6 +91,13 @@ func (s *SpokFile) expandGlobs() error {
 	return nil
 }
 
+// ExpandGlobs expands every glob pattern (dependencies and outputs) declared in the spokfile
+// and saves the results to the Globs map, for callers that need the concrete
+// filepaths without running any tasks e.g. spok --clean.
+func (s *SpokFile) ExpandGlobs() error {
+	return s.expandGlobs()
+}
+
 // buildGraph takes in a list of requested tasks, examines their dependencies, constructs
 // and returns the dependency graph.
 func (s *SpokFile) buildGraph(requested ...string) (*dag.Graph[string, task.Task], error) {
